@@ -9,6 +9,8 @@ mkdir -p build evidence
 ./build/extract "${VERIF_REPO:-/repo}" lean/Gv/Gen
 (cd tools/detscan && go build -o ../../build/detscan .)
 ./build/detscan "${VERIF_REPO:-/repo}" lean/Gv/Gen
+(cd tools/mutscan && go build -o ../../build/mutscan .)
+./build/mutscan "${VERIF_REPO:-/repo}" lean/Gv/Gen
 python3 -c "import sys; sys.path.insert(0, '.'); from driver import common; ok, out, _, _ = common.build_harness(); print(out); sys.exit(0 if ok else 1)"
 (cd lean && lake build Gv oracle $(ls Mains | sed "s/^\(.*\)\.lean$/oracle_\1/"))
 echo setup-ok
